@@ -323,8 +323,8 @@ def observe(s, q, aq, rng, missing, topks=(2, 3, 5)):
                 limited(mk)
             guard("collapse-topk:" + fn2, cfn2)
         # filter / mask
-        afilt = world.rand_query(rng, 1, scored_only=True)
-        amask = world.rand_query(rng, 1, scored_only=True)
+        afilt = world.rand_query(rng, 1, scored_only=True, ops=FACET_QUERY_OPS)
+        amask = world.rand_query(rng, 1, scored_only=True, ops=FACET_QUERY_OPS)
         hasf, hasm = rng.random() < 0.7, rng.random() < 0.5
         k = rng.choice([0, 1, 3])
 
@@ -410,7 +410,7 @@ def _is_column_default(s, fn, key):
 
 def c01_scored(aq):
     op = aq["op"]
-    if op in ("term", "every", "const", "null"):
+    if op in ("term", "every", "const", "null", "colq"):
         return True
     if op in ("and", "or", "dismax"):
         return all(c01_scored(k) for k in aq["kids"])
@@ -489,6 +489,12 @@ def check(run):
                                       ops=["term", "every", "prefix", "and", "or", "andnot", "andmaybe", "not", "null", "dismax"])
                 if tall and qi < 3:
                     aq = {"op": "term", "f": "body", "t": [1], "b4": 4}
+                elif qi % 5 == 3:
+                    # a condition on the per-document values of a column (ColumnQuery), alone or next to a term
+                    cq = {"op": "colq", "f": "num", "rel": rng.choice(["eq", "le"]), "v": rng.choice(NUMS)}
+                    other = {"op": "term", "f": "body", "t": world.rand_term(rng), "b4": 4}
+                    aq = rng.choice([cq, {"op": "and", "kids": [cq, other], "b4": 4}, {"op": "or", "kids": [other, cq], "b4": 4},
+                                     {"op": "andnot", "a": other, "b": cq}])
                 q = world.to_query(aq)
                 obs = observe(s, q, aq, rng, missing or tall, topks=(1, 2, 3, 4, 5) if tall else (2, 3, 5))
                 if heaponly:
